@@ -1053,4 +1053,3 @@ func (r *c14Run) checkKey(in *c14Inst, crps []c14CRPs, s, s2 *rlwe.SecretKey, B 
 	}
 	return true
 }
-
